@@ -203,13 +203,14 @@ theorem J_setT {s : State} (hJ : J s) {t : Tid} {th : Thread} (hg : getT s t = s
     J (setT s1 t th') :=
   ⟨J0_setT hJ.base hg s1 th' hthr hlk hth hloc hoth, key_setT hJ.key hg s1 th' hthr hkey⟩
 
-/-- a notifying step: `notify_one`, then thread `t` (which is not parked) finishes its call -/
+/-- a notifying step: `notify_one`, then thread `t` (which is not parked) finishes its call
+    (`enqNotify`, `dqnNotify`) or goes on to a pc outside `wait` (`procPbNotify → procDec`) -/
 theorem J_notify {s : State} (hJ : J s) {t : Tid} {th : Thread} (hg : getT s t = some th)
     (hnp : isParked th = false) (ch : Nat) (th' : Thread)
-    (hth : thOKW th' = true) (hpc : th'.pc = .idle) :
+    (hth : thOKW th' = true) (hpc : holdsQm th'.pc = false) (hnp' : isParked th' = false) :
     J (setT (notifyOne s ch) t th') := by
   have hloc' : ∀ q n m, locOK q n m t th' := by
-    intro q n m; apply locOK_of_not_holds; rw [hpc]; rfl
+    intro q n m; exact locOK_of_not_holds hpc
   rcases notifyOne_casesW s ch with ⟨hnone, heq⟩ | ⟨w, thw, timed, hw, hwpc, heq⟩
   · rw [heq]
     refine ⟨J0_setT hJ.base hg s th' rfl rfl hth (hloc' _ _ _) (Or.inl ⟨rfl, rfl, id⟩), ?_⟩
@@ -219,7 +220,7 @@ theorem J_notify {s : State} (hJ : J s) {t : Tid} {th : Thread} (hg : getT s t =
     · subst hut
       rw [getT_setT_self _ (getT_lt hg)] at hu
       cases hu
-      simp [isParked, hpc] at hup
+      rw [hnp'] at hup; cases hup
     · rw [getT_setT_ne _ hut] at hu
       rw [hnone u thu hu] at hup; cases hup
   · rw [heq]
@@ -230,7 +231,7 @@ theorem J_notify {s : State} (hJ : J s) {t : Tid} {th : Thread} (hg : getT s t =
     have hthw := hJ.base.th w thw hw
     have hJ1 : J0 (setT s w { thw with pc := .woken timed false }) := by
       refine J0_setT hJ.base hw s _ rfl rfl ?_ (locOK_of_not_holds rfl) (Or.inl ⟨rfl, rfl, id⟩)
-      simpa [thOKW, hwpc, isWaitPc, pcModeOK] using hthw
+      simpa [thOKW, hwpc, isWaitPc] using hthw
     have hg1 : getT (setT s w { thw with pc := .woken timed false }) t = some th := by
       rw [getT_setT_ne _ (Ne.symm hwt)]; exact hg
     refine ⟨J0_setT hJ1 hg1 _ th' rfl rfl hth (hloc' _ _ _) (Or.inl ⟨rfl, rfl, id⟩), ?_⟩
